@@ -151,12 +151,6 @@ impl Session {
                 }
             }
 
-            #[cfg(feature = "certification")]
-            if let Some(port) = encrypted_data.f_port()
-                && port > 0
-            {
-                self.rx_app_cnt += 1;
-            }
             #[cfg(feature = "multicast")]
             if let Some(port) = encrypted_data.f_port()
                 && multicast.is_in_range(port)
@@ -178,6 +172,12 @@ impl Session {
                 // retained for acknowledgment
                 if !ignore_mac {
                     self.uplink.clear_mac_commands(false);
+                }
+                #[cfg(feature = "certification")]
+                if let Some(port) = encrypted_data.f_port()
+                    && port > 0
+                {
+                    self.rx_app_cnt += 1;
                 }
                 // We can safely unwrap here because we already validated the MIC
                 let decrypted = DecryptedDataPayload::decrypt_in_place(
